@@ -300,11 +300,13 @@ def present (a : State) (lids : List UUID) : Bool :=
 
 /-- Nothing a reader can reach dangles (C10 restricted to the write set): what existed before and the roots
 (a store's root id is fixed) are loadable when registered; the added nodes must be there once their parents read
-as the transaction left them (the parents' blobs name them as children). -/
+as the transaction left them (the parents' blobs name them as children) — store by store. -/
 def reachableOk (a fin : State) (w : WS) : Bool :=
-  let parentAfter := if (upLids w).isEmpty then !w.rootIds.isEmpty && w.rootIds.all (fun r => (a.view r).isSome)
-    else sameView a fin (w.updated.map (·.1)) []
-  loadable a (upLids w ++ w.rootIds) && (!parentAfter || present a w.addedIds)
+  w.stores.all (fun st =>
+    let up := st.updated.map (·.1) ++ st.removed.map (·.1)
+    let parentAfter := if up.isEmpty then !st.root.isEmpty && st.root.all (fun r => (a.view r).isSome)
+      else sameView a fin (st.updated.map (·.1)) []
+    loadable a (up ++ st.root) && (!parentAfter || present a st.added))
 
 /-! ## Maintenance scheduling (`onIdle`) -/
 
